@@ -680,6 +680,17 @@ def process_template(unit, tmpl_path, prelude_dir):
                 loc = loc[:mm.start()]
             emit_item(unit, loc, opts)
             i += 1
+        elif d.startswith('block '):
+            j = i + 1
+            body = []
+            while j < n and lines[j].strip() != '//@end':
+                s2 = lines[j].strip()
+                if not s2.startswith('//@'):
+                    raise Unsupported('%s:%d: non-directive line inside //@block' % (tmpl_path, j + 1))
+                body.append(lines[j].split('//@', 1)[1])
+                j += 1
+            emit_block(unit, d[6:], body, '%s:%d' % (os.path.basename(tmpl_path), i + 1))
+            i = j + 1
         elif d.startswith('fn '):
             j = i + 1
             body = []
@@ -916,6 +927,72 @@ def emit_fn(unit, loc, dlines, tmpl_where):
     start = it.attrs_start
     text = src[start:it.end]
     line0 = line_of(src, start)
+    emit_fn_text(unit, rel, path, fn_id, text, line0, line_of(src, it.end), dlines, tmpl_where)
+
+
+def emit_block(unit, loc, dlines, tmpl_where):
+    """R9: a statement range of a (possibly async) fn, located by a start and an end anchor, is wrapped
+    verbatim into a synthetic fn whose name and parameter list come from the contract file:
+        //@block <file> :: <fn path> :: `start anchor` .. `end anchor`
+        //@ name f
+        //@ sig (a: A, b: &mut B) -> R
+        //@ fallthrough `expr`        tail expression appended when the range can fall through
+        //@ subst `x.y` => `z`        free-variable renaming inside the range (logged)
+    the range must not contain `.await` (checked)"""
+    mm = re.match(r'^(.*?)\s::\s`(.*)`\s\.\.\s`(.*)`\s*$', loc)
+    if not mm:
+        raise Unsupported('%s: bad //@block locator' % tmpl_where)
+    rel, path = parse_locator(mm.group(1))
+    a_txt, b_txt = mm.group(2), mm.group(3)
+    src, mask = unit.src(rel)
+    it = find_item(src, mask, path)
+    if it.kind != 'fn' or it.body_start is None:
+        raise AnchorLost('%s is not a fn with a body' % mm.group(1))
+    body = src[it.body_start:it.end]
+    bmask = mask[it.body_start:it.end]
+    name = None
+    sig = None
+    fall = ''
+    substs = []
+    rest = []
+    for raw in dlines:
+        st = raw.strip()
+        if re.match(r'^ ?\S', raw) and st.split()[0] == 'name':
+            name = st.split()[1]
+        elif re.match(r'^ ?\S', raw) and st.split()[0] == 'sig':
+            sig = st[3:].strip()
+        elif re.match(r'^ ?\S', raw) and st.split()[0] == 'fallthrough':
+            fall = re.match(r'fallthrough\s+`(.*)`\s*$', st).group(1)
+        elif re.match(r'^ ?\S', raw) and st.split()[0] == 'subst':
+            m2 = re.match(r'subst\s+`(.*)`\s*=>\s*`(.*)`\s*$', st)
+            substs.append((m2.group(1), m2.group(2)))
+        else:
+            rest.append(raw)
+    if not name or not sig:
+        raise Unsupported('%s: //@block needs name and sig' % tmpl_where)
+    ma = _find_anchor(body, bmask, a_txt, 0)
+    hits_b = [m for m in re.compile(r'\s*'.join(re.escape(t) for t in b_txt.split())).finditer(body) if bmask[m.start()] and m.start() >= ma.start()]
+    if not hits_b:
+        raise AnchorLost('block end anchor not found: `%s`' % b_txt)
+    mb = hits_b[0]
+    blk = body[ma.start():mb.end()]
+    bm = bmask[ma.start():mb.end()]
+    code_only = ''.join(c if bm[k] else ' ' for k, c in enumerate(blk))
+    if re.search(r'\.\s*await\b', code_only):
+        raise Unsupported('%s: block contains .await' % name)
+    for a, b in substs:
+        if a not in blk:
+            raise AnchorLost('%s: subst text `%s` not found in block' % (name, a))
+        blk = blk.replace(a, b)
+        unit.rule_log.append({'rule': 'R9', 'before': a, 'after': b, 'where': '%s block %s' % (rel, name)})
+    line0 = line_of(src, it.body_start + ma.start())
+    text = 'fn %s%s { %s\n%s }' % (name, sig, blk, fall)
+    unit.rule_log.append({'rule': 'R9', 'before': 'statements `%s` .. `%s` of %s' % (a_txt[:40], b_txt[:40], ' :: '.join(path)),
+                          'after': 'fn %s%s { <verbatim> %s }' % (name, sig, fall), 'where': rel})
+    emit_fn_text(unit, rel, path + ['block ' + name], name, text, line0, line_of(src, it.body_start + mb.end()), rest, tmpl_where)
+
+
+def emit_fn_text(unit, rel, path, fn_id, text, line0, end_line, dlines, tmpl_where):
 
     # ---- parse directive body
     props = list(unit.unit_props)
@@ -1074,7 +1151,7 @@ def emit_fn(unit, loc, dlines, tmpl_where):
         unit.rule_log.append({'rule': r[0], 'before': r[1], 'after': r[2], 'where': ctx})
 
     unit.fns[fn_id] = {'file': rel, 'path': ' :: '.join(path), 'line': line0,
-                       'end_line': line_of(src, it.end), 'props': props, 'trusted': trusted,
+                       'end_line': end_line, 'props': props, 'trusted': trusted,
                        'tmpl': tmpl_where, 'has_body': has_body}
     if trusted:
         unit.trusted.append('%s: body of %s (%s) not verified (external_body)' % (tmpl_where, fn_id, rel))
